@@ -153,7 +153,42 @@ func vh_C20_L4_reset_wakes_every_reader()    { vh_C14_L2_deferred_reset() }
 //	WriteSCTP x Close: the write is either rejected or queued before the reset marker.
 func vh_C20_L5_racing_api_calls() {
 	a, _ := vNewAssocOpts(vAssocOpts{blockWrite: vPick(2) == 1})
-	switch vPick(4) {
+	switch vPick(6) {
+	case 4:
+		// WriteSCTP x Shutdown: a write that returns success is sent before the association
+		// goes quiet (it is never stranded in the queue of an association that has stopped
+		// sending new data)
+		s, _ := a.OpenStream(1, PayloadTypeWebRTCBinary)
+		a.cwnd, a.rwnd = 1<<20, 1<<20
+		vPreemptWith(func() { _ = a.Shutdown(vNewClosedCtx()) })
+		_, merr := s.WriteSCTP([]byte{1}, PayloadTypeWebRTCBinary)
+		if vPreemptBody != nil {
+			vPreemptBody = nil
+			_ = a.Shutdown(vNewClosedCtx())
+		}
+		_ = vWriterPass(a)
+		_ = vWriterPass(a)
+		if merr == nil {
+			vassert(a.pendingQueue.size() == 0 && a.inflightQueue.size() == 1, "a write accepted while Shutdown was being called is put on the wire")
+		} else {
+			vassert(a.pendingQueue.size() == 0 && a.inflightQueue.size() == 0, "a rejected write queues nothing")
+		}
+		vcover("write-shutdown")
+	case 5:
+		// Shutdown x the peer's SHUTDOWN (nothing outstanding): whichever gets in first, the
+		// association ends up having answered the peer (SHUTDOWN-ACK-SENT), never back in an
+		// earlier shutdown state
+		var serr error
+		vPreemptWith(func() { _ = vDeliver(a, &chunkShutdown{cumulativeTSNAck: a.cumulativeTSNAckPoint}) })
+		serr = a.Shutdown(vNewClosedCtx())
+		if vPreemptBody != nil {
+			vPreemptBody = nil
+			_ = vDeliver(a, &chunkShutdown{cumulativeTSNAck: a.cumulativeTSNAckPoint})
+		}
+		_ = serr
+		_ = vWriterPass(a)
+		vassert(a.getState() == shutdownAckSent, "local Shutdown and the peer's SHUTDOWN racing end in SHUTDOWN-ACK-SENT whichever is processed first")
+		vcover("shutdown-shutdown")
 	case 0:
 		var other *Stream
 		vPreemptWith(func() { other, _ = a.OpenStream(7, PayloadTypeWebRTCBinary) })
